@@ -108,8 +108,11 @@ def gen_route_body(rng, ok: bool = True) -> str:
         return f'ipv4 unicast {rng.choice(V4_ROUTES)} next-hop {rng.choice(NH4)}{rng.choice(ATTRS[:4])}'
     if x < 0.93:
         return f'ipv6 unicast {rng.choice(V6_ROUTES)} next-hop {rng.choice(NH6)}'
-    if x < 0.97:
+    if x < 0.96:
         return f'attributes next-hop {rng.choice(NH4)}{rng.choice(ATTRS[1:4])} nlri {rng.choice(V4_ROUTES)} {rng.choice(V4_ROUTES)}'
+    if x < 0.98:
+        # a family no neighbor of the rig is configured for: parsed, then refused neighbor by neighbor
+        return 'flow route { match { source 10.0.0.1/32; destination-port =80; } then { discard; } }'
     return f'route {rng.choice(V4_ROUTES)}'  # no next hop: validate_announce refuses the announce
 
 
@@ -168,6 +171,10 @@ class Gen:
         tag.setdefault('version', self.version)
         return {'text': text, 'tag': tag}
 
+    def suffix(self) -> str:
+        """the trailing keywords `parse_sync_mode` strips"""
+        return self.rng.choice(['', '', '', '', ' json', ' text', ' sync', ' async', ' sync json', ' json async', ' text text text'])
+
     def selected(self, action_text: str, kind: str, **tag: Any) -> dict:
         rng = self.rng
         sel = gen_selector(rng, self.specs)
@@ -182,17 +189,19 @@ class Gen:
         act = rng.choice(['announce', 'announce', 'withdraw'])
         if x < 0.30:  # selector + route
             ok = rng.random() < 0.85
-            return [self.selected(f'{act} {gen_route_body(rng, ok)}', 'sel-route')]
+            return [self.selected(f'{act} {gen_route_body(rng, ok)}{self.suffix()}', 'sel-route')]
         if x < 0.42:  # no selector
             ok = rng.random() < 0.85
-            body = gen_route_body(rng, ok)
+            body = gen_route_body(rng, ok) + self.suffix()
             if v == 4:
                 return [self.line(f'{act} {body}', kind='route')]
             return [self.line(f'peer * {act} {body}', kind='route')]
         if x < 0.49:
             return [self.selected(f'{act} watchdog {rng.choice(["dog", "cat", "bird"])}', 'sel-watchdog')]
+        if x < 0.51:
+            return [self.selected(f'teardown {rng.choice(["6", "2", "x", "", "6 7"])}'.rstrip(), 'sel-teardown')]
         if x < 0.52:
-            return [self.selected(f'teardown {rng.choice(["6", "2", "x", ""])}'.rstrip(), 'sel-teardown')]
+            return [self.selected(rng.choice(['announce eor ipv4 unicast', 'announce eor', 'announce route-refresh ipv4 unicast', 'announce route-refresh bogus']), 'sel-eor', nochange=True)]
         if x < 0.56:
             w = rng.choice(['flush adj-rib out', 'clear adj-rib out', 'clear adj-rib in']) if v == 4 else rng.choice(['rib flush out', 'rib clear out', 'rib clear in'])
             return [self.line(w, kind='rib')]
@@ -366,6 +375,17 @@ def expected_commands(case: dict) -> list[tuple[int, str]]:
             continue
         out.append((i, l['text']))
     return out
+
+
+def same_outcome(res: dict, res2: dict) -> bool:
+    """Two deliveries of the same bytes: same commands, same replies, same RIBs after every command.
+    Once the helper has been killed nobody reads the replies (and which of them were still written
+    depends on the scheduling): then the commands, the verdict and the final RIBs are compared."""
+    if res['commands'] != res2['commands'] or res['dead'] != res2['dead']:
+        return False
+    if res['dead']:
+        return res['after'][-1:] == res2['after'][-1:]
+    return [terminal(r) for r in res['replies']] == [terminal(r) for r in res2['replies']] and res['after'] == res2['after']
 
 
 def changed(before: list[str], after: list[str]) -> set[int]:
@@ -589,19 +609,21 @@ def shrink_selector(case: dict, line: int) -> tuple[dict, dict]:
     specs = specs_of(case)
     sel, syntax, action = copy.deepcopy(tag['sel']), tag['syntax'], tag['action']
     mk = lambda s, sy, a, v=version: single_line_case(v, nbrs, s, sy, a)
-    if not selector_fails(mk(sel, syntax, action)):
-        return case, {'unshrunk': True, 'line': case['lines'][line]['text']}
     # 1. the action: the watchdog handlers are a class of their own (they ignore the selection),
-    #    everything else that changes a RIB is a route command; take the plainest one that still fails
+    #    everything else that changes a RIB is a route command; take the plainest one that fails on
+    #    a fresh daemon (the original may depend on what earlier commands did, e.g. a watchdog
+    #    that had been withdrawn before)
     action_class = 'watchdog' if 'watchdog' in action else 'route'
     if action_class == 'watchdog':
         candidates = ['announce watchdog dog', 'withdraw watchdog dog', 'announce watchdog cat', 'withdraw watchdog cat']
     else:
         candidates = ['announce route 10.0.1.0/24 next-hop 192.0.2.1', 'announce route 2001:db8:6::/48 next-hop 2001:db8::1']
-    for a in candidates:
-        if a != action and selector_fails(mk(sel, syntax, a)):
+    for a in candidates + [action]:
+        if selector_fails(mk(sel, syntax, a)):
             action = a
             break
+    else:
+        return case, {'unshrunk': True, 'line': case['lines'][line]['text']}
     progress = True
     while progress:
         progress = False
@@ -752,7 +774,7 @@ def eval_case(ctx: Ctx, case: dict, quirks: dict, seen: set, origin: str, pendin
             ctx.count('syntax:' + l['tag']['syntax'])
     # --- chunking independence on the implementation
     res2 = run_real(case, case.get('cuts2', []))
-    same = res['commands'] == res2['commands'] and [terminal(r) for r in res['replies']] == [terminal(r) for r in res2['replies']] and res['after'] == res2['after'] and res['dead'] == res2['dead']
+    same = same_outcome(res, res2)
     if not same:
         ctx.count('oracle-fail:chunking')
         lens = [len(x) for x in data.split(b'\n')]
@@ -786,6 +808,9 @@ def eval_case(ctx: Ctx, case: dict, quirks: dict, seen: set, origin: str, pendin
                 _shrunk[pre] = shrink_selector(case, f['line'])
             small, canon = _shrunk[pre]
             kind = 'selector'
+            again = [g for g in oracle(small, run_real(small, [])) if g['what'] == 'selector'] if small is not case else []
+            if again:
+                f = dict(f, detail=f'{small["lines"][0]["text"]!r}: ' + again[0]['detail'])
         else:
             small, canon, kind = case, {'what': f['what'], 'line': case['lines'][f['line']]['text'] if f['line'] >= 0 else '', 'version': case['version']}, 'api-' + f['what']
             if f['what'] in ('ack', 'nochange', 'order') and 'lines' in case:
@@ -840,8 +865,8 @@ def run(ctx: Ctx) -> None:
     seen: set = set()
     cases: list[tuple[dict, str]] = [(c, 'corpus') for c in load_corpus()]
     cases.append(({**oversize_probe(), 'model': ctx.tier == 'thorough'}, 'oversize-probe'))
-    nrandom = 600 if ctx.tier == 'quick' else 30000
-    nraw = 150 if ctx.tier == 'quick' else 4000
+    nrandom = 1400 if ctx.tier == 'quick' else 24000
+    nraw = 350 if ctx.tier == 'quick' else 4000
     for i in range(nrandom):
         cases.append((gen_case(rng, ctx.tier), 'random'))
         if i % max(1, nrandom // nraw) == 0:
@@ -866,7 +891,7 @@ def replay(path: str) -> int:
         print(f'{k}: {c[:200]!r}\n    replies {res["replies"][k]!r}\n    changed neighbors {sorted(changed(res["before"][k], res["after"][k]))}')
     fails = oracle(case, res)
     res2 = run_real(case, case.get('cuts2', []))
-    if res['commands'] != res2['commands'] or res['dead'] != res2['dead'] or res['after'] != res2['after']:
+    if not same_outcome(res, res2):
         fails.append({'what': 'chunking', 'line': -1, 'detail': f'{len(res["commands"])} commands / killed={res["dead"]} under the first chunking, {len(res2["commands"])} / killed={res2["dead"]} under the second'})
     for f in fails:
         print('FAILS', f)
